@@ -608,7 +608,7 @@ def run(facts, cg):
                                     absent = True
                         else:
                             from .r_misc import _variant_edges
-                            for sbi2, tg2 in _variant_edges(c, ct2['dest']['l'], 0):
+                            for sbi2, tg2 in _variant_edges(c, ct2['dest']['l'], 0, conveyors=True):
                                 if tg2 in cdom.get(bi, ()) or tg2 == bi:
                                     absent = True
                     instances.append({'rule': 'R-DICT-WIRING(dedup-insert)', 'function': c.q, 'at': t['loc'], 'behind_absence_test': absent})
